@@ -198,7 +198,7 @@ impl World {
         t.map(Duration::from_millis)
     }
 
-    async fn call(&mut self, a: usize, t: Option<u64>) -> String {
+    async fn call(&mut self, a: usize, t: Option<u64>, via_macro: bool) -> String {
         let id = self.next_port;
         self.next_port += 1;
         let Some(ah) = self.actors.get_mut(a) else { return "bad-actor".into() };
@@ -206,6 +206,29 @@ impl World {
         let accepted = Arc::new(AtomicU64::new(0));
         let acc2 = accepted.clone();
         let h = tokio::spawn(async move {
+            if via_macro {
+                // the `call!` / `call_t!` macros (ractor/src/macros.rs)
+                let res: Result<u64, ractor::RactorErr<Msg>> = match t {
+                    None => ractor::call!(r, Msg::Call, id),
+                    Some(ms) => ractor::call_t!(r, Msg::Call, ms, id),
+                };
+                return match res {
+                    Ok(v) => {
+                        acc2.store(1, Ordering::SeqCst);
+                        format!("success:{v}")
+                    }
+                    Err(ractor::RactorErr::Timeout) => {
+                        acc2.store(1, Ordering::SeqCst);
+                        "timeout".into()
+                    }
+                    Err(ractor::RactorErr::Messaging(ractor::MessagingErr::SendErr(_))) => "sendErr".into(),
+                    Err(ractor::RactorErr::Messaging(ractor::MessagingErr::ChannelClosed)) => {
+                        acc2.store(1, Ordering::SeqCst);
+                        "senderError".into()
+                    }
+                    Err(_) => "macro-err".into(),
+                };
+            }
             let res = r.call(|port| Msg::Call(id, port), Self::timeout(t)).await;
             match res {
                 Ok(cr) => {
@@ -225,13 +248,39 @@ impl World {
         Self::fmt("ok", self.events().await)
     }
 
-    async fn fcall(&mut self, a: usize, f: usize, t: Option<u64>) -> String {
+    async fn fcall(&mut self, a: usize, f: usize, t: Option<u64>, via_macro: bool) -> String {
         let id = self.next_port;
         self.next_port += 1;
         if a >= self.actors.len() || f >= self.actors.len() {
             return "bad-actor".into();
         }
         let fwd = self.actors[f].r.clone();
+        if via_macro {
+            // the `forward!` macro: it cannot tell a failed initial send from a dropped port (both
+            // map to ChannelClosed), so the harness decides that from what it knows about the callee
+            let accepting = self.actors[a].alive && !self.actors[a].draining;
+            let callee = self.actors[a].r.clone();
+            if accepting {
+                self.actors[a].queued += 1;
+            }
+            let h = tokio::spawn(async move {
+                let res: Result<(), ractor::RactorErr<Msg>> = match t {
+                    None => ractor::forward!(callee, |tx| Msg::Call(id, tx), fwd, Msg::Fwd),
+                    Some(ms) => ractor::forward!(callee, |tx| Msg::Call(id, tx), fwd, Msg::Fwd, Duration::from_millis(ms)),
+                };
+                match res {
+                    Ok(()) => "success+ok".to_string(),
+                    Err(ractor::RactorErr::Timeout) => "timeout".into(),
+                    Err(ractor::RactorErr::Messaging(ractor::MessagingErr::SendErr(_))) => "success+senderr".into(),
+                    Err(ractor::RactorErr::Messaging(ractor::MessagingErr::ChannelClosed)) => {
+                        if accepting { "senderError".into() } else { "sendErr".into() }
+                    }
+                    Err(_) => "macro-err".into(),
+                }
+            });
+            self.pending.push((id, Pending::Fcall(h, f)));
+            return Self::fmt("ok", self.events().await);
+        }
         let r = self.actors[a].r.call_and_forward(|port| Msg::Call(id, port), &fwd, Msg::Fwd, Self::timeout(t));
         match r {
             Err(_) => Self::fmt("ok", format!("fdone {id}=sendErr")),
@@ -410,8 +459,10 @@ impl World {
                 self.spawn().await;
                 "ok".into()
             }
-            ["call", a, tt] => self.call(a.parse().unwrap_or(99), t(tt)).await,
-            ["fcall", a, f, tt] => self.fcall(a.parse().unwrap_or(99), f.parse().unwrap_or(99), t(tt)).await,
+            ["call", a, tt] => self.call(a.parse().unwrap_or(99), t(tt), false).await,
+            ["call", a, tt, "m"] => self.call(a.parse().unwrap_or(99), t(tt), true).await,
+            ["fcall", a, f, tt] => self.fcall(a.parse().unwrap_or(99), f.parse().unwrap_or(99), t(tt), false).await,
+            ["fcall", a, f, tt, "m"] => self.fcall(a.parse().unwrap_or(99), f.parse().unwrap_or(99), t(tt), true).await,
             ["mcall", targets, tt] => {
                 let v: Vec<usize> = targets.split(',').filter_map(|x| x.parse().ok()).collect();
                 self.mcall(&v, t(tt)).await
@@ -464,7 +515,7 @@ async fn gen_case(log: &mut Log, st: &mut Stats, rng: &mut Rng, len: u64) {
         let a = rng.below(n as u64);
         let k = rng.below(100);
         let line = match k {
-            0..=29 => format!("call {a} {}", gen_timeout(rng)),
+            0..=29 => format!("call {a} {}{}", gen_timeout(rng), if rng.chance(1, 3) { " m" } else { "" }),
             30..=59 => format!("handle {a} {}", gen_act(rng).show()),
             60..=68 => {
                 // prefer ports that exist
@@ -477,7 +528,7 @@ async fn gen_case(log: &mut Log, st: &mut Stats, rng: &mut Rng, len: u64) {
                 let ts: Vec<String> = (0..m).map(|_| rng.below(n as u64).to_string()).collect();
                 format!("mcall {} {}", ts.join(","), gen_timeout(rng))
             }
-            76..=83 => format!("fcall {a} {} {}", rng.below(n as u64), gen_timeout(rng)),
+            76..=83 => format!("fcall {a} {} {}{}", rng.below(n as u64), gen_timeout(rng), if rng.chance(1, 2) { " m" } else { "" }),
             84..=91 => format!("advance {}", rng.pick(&[1u64, 1, 2, 3, 7])),
             92..=94 => format!("exit {a}"),
             95..=97 => format!("stop {a} {}", gen_act(rng).show()),
